@@ -9,6 +9,7 @@ Decided
   D1  part_bounds are computed from the very sequence / object that _get_part indexes, in the same order
       (flat: cumulative first-axis sizes of self._mmaps, _get_part = self._mmaps[part][sub]; single-part readers:
       [0, first-axis size of X], _get_part = X[sub])
+  D2  the per-file mappings are built from the constructor's path list in the order given (no sorted / reversed / set)
   P1  reader[item] = replay(ops)(vstack(_get_part(p, s) for (p, s) in _get_subitems(part_bounds, item) in order))
   S1  _memmap_flat: n_samples = (file size - offset) // (itemsize * n_channels); memmap gets path, dtype, offset, mode,
       shape (n_samples, n_channels)
@@ -277,6 +278,29 @@ def t2_d1_readers(ctx):
             ctx.check(bad is None, 'C01.D1', init, cls.name + ' file geometry', '%s: every file is mapped with the constructor\'s dtype, n_channels, offset and mode' % cls.name,
                       '%s: a file of the recording is mapped with %s = %s instead of the constructor argument: the files of one recording share one layout '
                       '(header offset, sample type, channel count)' % (cls.name, bad[0] if bad else '', show(bad[1]) if bad else ''))
+            # D2: the files are mapped in the order in which the caller listed them (concatenation order = argument order)
+            REORDER = ('sorted', 'reversed', 'set', 'frozenset', 'np.sort', 'np.unique', 'natsorted', 'os.listdir', 'glob')
+            verdict, why2 = None, ''
+            pparam = T('param', init.params[1]) if len(init.params) > 1 else None
+            for mp in maps:
+                f_arg = mp[4] if len(mp) > 4 else None
+                srcs = [x for x in subterms(f_arg)] if f_arg is not None else []
+                calls_ = [x[2] for x in srcs if is_t(x) and x[1] == 'call']
+                texts = ' '.join(show(x) for x in srcs if is_t(x) and x[1] == 'comp')
+                if any(c_ in REORDER for c_ in calls_) or any(('%s(' % r_) in texts for r_ in REORDER):
+                    verdict, why2 = False, show(f_arg)[:90]
+                    break
+                if f_arg == pparam or (is_t(f_arg) and f_arg[1] == 'elem' and pparam in srcs and all(c_ in ('Path', 'str', 'list', 'tuple') for c_ in calls_)):
+                    verdict = True if verdict is None else verdict
+                elif verdict is None:
+                    verdict, why2 = 'und', show(f_arg)[:90]
+            if verdict is True:
+                ctx.holds('C01.D2', init, '%s: the files are mapped in the order of the constructor argument (the concatenation order is the caller\'s order)' % cls.name, cls.name + ' file order')
+            elif verdict is False:
+                ctx.violated('C01.D2', init, cls.name + ' file order', '%s: the files are mapped in a re-ordered sequence (%s), not in the order given by the caller: the reader is the '
+                             'concatenation of the files in a different order' % (cls.name, why2))
+            else:
+                ctx.undecided('C01.D2', init, '%s: provenance of the mapped file sequence not recognised (%s)' % (cls.name, why2))
     # _get_part_bounds: [0] + cumulative first-axis sizes in order
     pb = repo.func(TR, '_get_part_bounds')
     r = [x for x in pb.returns() if x.value is not None]
@@ -671,7 +695,7 @@ def p1_getitem(ctx):
     cls = repo.cls(TR, 'BaseEphysReader')
     gi = repo.lookup_method(cls, '__getitem__')
     me = T('self')
-    heap, ref0, old = state0(me)
+    heap, ref0, old = state0(me, symbolic=False)
     item = T('rowitem')
     I = RI(repo, cls)
     facts = {('truth', T('call', 'isinstance', C(0), item, T('name', 'tuple'))): False}
@@ -736,14 +760,14 @@ def p1_getitem(ctx):
 
 
 def run(ctx):
-    t1_dispatch(ctx)
-    t2_d1_readers(ctx)
-    s1_memmap(ctx)
-    s2_find_chunks(ctx)
-    u1_props(ctx)
-    s3_slice(ctx)
-    s4_list_int(ctx)
-    p1_getitem(ctx)
+    ctx.part('C01.T1', t1_dispatch)
+    ctx.part('C01.T2', t2_d1_readers)
+    ctx.part('C01.S1', s1_memmap)
+    ctx.part('C01.S2', s2_find_chunks)
+    ctx.part('C01.U1', u1_props)
+    ctx.part('C01.S3', s3_slice)
+    ctx.part('C01.S4', s4_list_int)
+    ctx.part('C01.P1', p1_getitem)
 
 
 LEVEL_TEXT = ('Static walks of the reader module: dispatch table over all type/extension outcomes, definite assignment of the reader '
